@@ -58,9 +58,9 @@ func runC08(r *fw.Run) {
 	la.Solve()
 	data := [][]string{{lkData}}
 	single := map[string]string{
-		"Loader.Init": "runs before the fetch tree is resolved (single goroutine)",
-		"Loader.Free": "runs after the request finished (single goroutine)",
-		"NewLoader":   "constructor: the Loader is not shared yet",
+		"Loader.Init":                          "runs before the fetch tree is resolved (single goroutine)",
+		"Loader.Free":                          "runs after the request finished (single goroutine)",
+		"NewLoader":                            "constructor: the Loader is not shared yet",
 		"Loader.appendSubgraphErrorsToContext": "called once after the fetch tree resolved: post-join via defer in LoadGraphQLResponseData, or under the lock in resolveDeferSingle",
 		"Resolver.ResolveGraphQLResponse":      "post-join read after LoadGraphQLResponseData returned",
 		"Resolver.ArenaResolveGraphQLResponse": "post-join read after LoadGraphQLResponseData returned",
